@@ -4,6 +4,7 @@ package vc
 
 import (
 	"fmt"
+	"regexp"
 	"go/ast"
 	"go/token"
 	"go/types"
@@ -348,6 +349,8 @@ type Ctx struct {
 	specDepth int
 	epochs   int
 	axiomSet map[string]bool
+	inHint   bool
+	hintSeen map[string]bool
 }
 
 func (c *Ctx) refuse(f string, a ...interface{}) {
@@ -459,13 +462,19 @@ func (c *Ctx) assert(kind, label string, goal Term, src string, serves []string)
 	if goal.B != nil && *goal.B {
 		return
 	}
+	if !c.inHint {
+		c.applyHints()
+	}
 	if len(goal.Conj) > 1 {
 		// one obligation per conjunct: smaller queries, sharper diagnosis
 		flat := flattenConj(goal)
 		if len(flat) > 1 {
+			saved := c.inHint
+			c.inHint = true // hints were instantiated once for the whole clause
 			for i, g := range flat {
 				c.assert(kind, fmt.Sprintf("%s.%d", label, i+1), g, src, serves)
 			}
+			c.inHint = saved
 			return
 		}
 	}
@@ -495,6 +504,51 @@ func (c *Ctx) assert(kind, label string, goal Term, src string, serves []string)
 	}
 	c.assume(goal)
 }
+
+// applyHints instantiates the function-level lemma hints in the current state (skipping those whose
+// names are not in scope yet).
+func (c *Ctx) applyHints() {
+	root := c.rootFrame()
+	if root == nil || root.Contract == nil || len(root.Contract.Hints) == 0 {
+		return
+	}
+	c.inHint = true
+	savedFr, savedBound, savedOld := c.Fr, c.bound, c.inOld
+	c.Fr = root
+	c.bound = nil
+	c.inOld = false
+	defer func() { c.inHint = false; c.Fr, c.bound, c.inOld = savedFr, savedBound, savedOld }()
+	for _, h := range root.Contract.Hints {
+		func() {
+			n0 := len(c.St.Path)
+			defer func() {
+				if r := recover(); r != nil {
+					if _, ok := r.(refusal); ok {
+						c.St.Path = c.St.Path[:n0]
+						return
+					}
+					panic(r)
+				}
+			}()
+			c.useLemmas([]SExpr{h})
+			// de-duplicate identical instances
+			if len(c.St.Path) > n0 {
+				last := c.St.Path[len(c.St.Path)-1]
+				if c.hintSeen == nil {
+					c.hintSeen = map[string]bool{}
+				}
+				key := reBoundVar.ReplaceAllString(last.S, "!q")
+				if c.hintSeen[key] {
+					c.St.Path = c.St.Path[:n0]
+				} else {
+					c.hintSeen[key] = true
+				}
+			}
+		}()
+	}
+}
+
+var reBoundVar = regexp.MustCompile(`![qam]\d+`)
 
 func flattenConj(t Term) []Term {
 	if len(t.Conj) == 0 {
